@@ -155,3 +155,98 @@ class place_after:
     def ensures(result, has_origin):
         same, calls = result
         return {'returns the element': same, 'placed at the end of the named element': calls == ([('at', 'END-POINT')] if has_origin else [])}
+
+
+# ---- fill(): the glue between the declared description and the drawing (C14: annotations are requested as declared; C19: the
+# ---- circuit is translated - and thereby validated - even when no annotation is requested)
+
+
+class StubSchematic:
+    def __init__(self):
+        self.added = []
+        self.elements = []
+
+    def __iadd__(self, x):
+        self.added.append(x)
+        return self
+
+
+class StubSolution:
+    def __init__(self, log):
+        self.log = log
+
+    def draw_voltage(self, **kw):
+        self.log.append(('voltage', kw))
+        return ('voltage label', len(self.log))
+
+    def draw_current(self, **kw):
+        self.log.append(('current', kw))
+        return ('current label', len(self.log))
+
+    def draw_potential(self, **kw):
+        self.log.append(('potential', kw))
+        return ('potential label', len(self.log))
+
+    def draw_power(self, **kw):
+        self.log.append(('power', kw))
+        return ('power label', len(self.log))
+
+
+class StubDefinition:
+    def __init__(self, voltages, currents, potentials, powers, creator):
+        self.voltages, self.currents, self.potentials, self.powers = voltages, currents, potentials, powers
+        self.diagram_solution_creator = creator
+
+
+def annotation(g, stem, with_reverse):
+    d = {'name': g.label(stem)}
+    if with_reverse:
+        d['reverse'] = g.bool(stem + '_reverse')
+    return d
+
+
+@contract('CircuitCalculator.SimpleSimulation.schematic.fill', props=['C14', 'C19'], name='fill_requests_annotations_as_declared',
+          bounded='one declared annotation of each kind (with and without a reverse flag), stubbed solution object, no elements')
+class fill_annotations:
+    frame = False
+
+    def inputs(g):
+        return dict(v=annotation(g, 'v', g.bool('v_has_reverse')), c=annotation(g, 'c', g.bool('c_has_reverse')), p=annotation(g, 'p', False),
+                    w=annotation(g, 'w', g.bool('w_has_reverse')), declared=g.choice('declared', ['all four', 'none']))
+
+    def call(f, v, c, p, w, declared):
+        log, created = [], []
+
+        def creator(schematic):
+            created.append(schematic)
+            return StubSolution(log)
+        s = StubSchematic()
+        some = declared == 'all four'
+        f(s, [], 7, False, StubDefinition([v] if some else [], [c] if some else [], [p] if some else [], [w] if some else [], creator))
+        return (log, created, s)
+
+    def ensures(result, v, c, p, w, declared):
+        log, created, s = result
+        some = declared == 'all four'
+        expected = [('voltage', v), ('current', c), ('potential', p), ('power', w)] if some else []
+        return {'the circuit is translated exactly once, whether or not annotations are requested': len(created) == 1 and created[0] is s,
+                'each declared annotation is requested with exactly its declared options (name, reverse)': eq(log, expected),
+                'every produced label is added to the drawing': len(s.added) == len(expected)}
+
+
+@contract('CircuitCalculator.SimpleSimulation.schematic.fill', props=['C19', 'C14'], name='fill_reports_illegal_values',
+          bounded='stubbed solution creator that rejects the circuit; annotations declared or not')
+class fill_rejects:
+    frame = False
+    total = True
+
+    def inputs(g):
+        return dict(declared=g.bool('declared'), name=g.label('name'))
+
+    def call(f, declared, name):
+        def creator(schematic):
+            raise ValueError('negative resistance')
+        return f(StubSchematic(), [], 7, False, StubDefinition([{'name': name}] if declared else [], [], [], [], creator))
+
+    def ensures(result, declared, name):
+        return {'an illegal element value is reported, with or without declared annotations': raised(result, errors.IllegalElementValue)}
